@@ -461,6 +461,9 @@ def run(case):
 def main():
     cases = json.load(sys.stdin)
     res = []
+    # Lcapy prints diagnostics (e.g. "Rewrite expression as ...") on stdout: keep the JSON channel clean
+    real_stdout = sys.stdout
+    sys.stdout = sys.stderr
     import time
     import signal
 
@@ -486,6 +489,7 @@ def main():
         except Exception as e:
             import traceback
             res.append({'error': type(e).__name__ + ': ' + str(e)[:300], 'tb': traceback.format_exc()[-600:]})
+    sys.stdout = real_stdout
     json.dump(res, sys.stdout)
 
 
